@@ -12,7 +12,7 @@
              table): it must be the same multiset
    Observation of the implementation: T [L terminated; T delivered ids]. *)
 From Coq Require Import List NArith Bool Arith.
-From AdltV Require Import Base.Obs Pipe.Kahn Pipe.Loss Pipe.Shared.
+From AdltV Require Import Base.Obs Pipe.Kahn Pipe.Loss Pipe.Shared Pipe.Consumer.
 Import ListNotations.
 Open Scope N_scope.
 
@@ -210,16 +210,38 @@ Definition shared_model (c : shared_case) : list otree :=
          let s := srun slook (3 * length es + 10) (N.to_nat cap) (map N.to_nat sched) (sinit [] es) in
          T (map (fun x => ob (snd x)) (seen s))) runs.
 
-Definition case_C13 := (pipe_case + (loss_case + shared_case))%type.
+(* ---------------------------------------------------------------------------------------------------
+   Remote cases: `adlt remote` (parser -> lifecycle -> [plugins] -> [sort] -> process_file_context -> websocket client).
+     pre     the lifecycle table (rows: ecu, nr_msgs, start, end, resume + 1 or 0; in the order of the ids) as the readers
+             see it when the lifecycle stage hands over its LAST message (library run of the stage on the same file)
+     final   the table after the stage has returned
+     n       number of messages
+     sched   interleaving of the writer's events and the consumer's ticks
+   Observation: T [L messages announced to the client; T rows the client holds at the end (last info per lifecycle id)].
+   Model: Pipe/Consumer.v with the policy as coded (the table is looked at in every tick); after the schedule the writer
+   finishes and the consumer ticks twice more. *)
+Definition rrow := list N.
+Definition remote_case := (list rrow * list rrow * N * list N)%type.
+Definition remote_model (c : remote_case) : otree :=
+  let '(pre, fin, n, sched) := c in
+  let evs := [EPub pre] ++ map (fun i => ESend (N.of_nat i)) (seq 0 (N.to_nat n)) ++ [EPub fin] in
+  let s := crun true (map N.to_nat sched) (cinit [] evs) in
+  let s := wfinish (length evs + 1) s in
+  let s := tick true (length evs) (tick true (length evs) s) in
+  T [L (N.of_nat (length (c_got s))); T (map (fun r => T (map L r)) (c_view s))].
+
+Definition case_C13 := (pipe_case + (loss_case + (shared_case + remote_case)))%type.
 Definition run_C13 (c : case_C13) : otree :=
   match c with
   | inl p => run_pipe p
   | inr (inl l) => T (loss_model l)
-  | inr (inr sh) => T (shared_model sh)
+  | inr (inr (inl sh)) => T (shared_model sh)
+  | inr (inr (inr r)) => remote_model r
   end.
 Definition agree_C13 (c : case_C13) (o : otree) : bool :=
   match c with
   | inl p => agree_pipe p o
   | inr (inl l) => loss_selfcheck l && otree_eqb (T (loss_model l)) o
-  | inr (inr sh) => pbs_b [] (shared_events sh) && otree_eqb (T (shared_model sh)) o
+  | inr (inr (inl sh)) => pbs_b [] (shared_events sh) && otree_eqb (T (shared_model sh)) o
+  | inr (inr (inr r)) => otree_eqb (remote_model r) o
   end.
